@@ -43,6 +43,13 @@ def exec_block(body, env):
             env[s.name] = Closure(s, env)
         elif isinstance(s, ast.Assign) and len(s.targets) == 1 and isinstance(s.targets[0], ast.Name):
             env[s.targets[0].id] = ev(s.value, env)
+        elif isinstance(s, ast.Assign) and len(s.targets) == 1 and isinstance(s.targets[0], (ast.Tuple, ast.List)) and \
+                all(isinstance(t, ast.Name) for t in s.targets[0].elts):
+            v = ev(s.value, env)
+            if not isinstance(v, tuple) or len(v) != len(s.targets[0].elts):
+                raise NFUnsupported("unpacking of a non-tuple in partial evaluation")
+            for t, x in zip(s.targets[0].elts, v):
+                env[t.id] = x
         elif isinstance(s, ast.Return):
             raise _Return(ev(s.value, env) if s.value is not None else None)
         elif isinstance(s, ast.If):
@@ -137,3 +144,17 @@ def ev(e, env):
             return call_closure(f, [ev(a, env) for a in e.args])
         raise NFUnsupported("call in partial evaluation")
     raise NFUnsupported("expression %s in partial evaluation" % type(e).__name__)
+
+
+def module_env(tree):
+    """the module's top-level functions (as closures over this environment) and its top-level literal bindings"""
+    env = {}
+    for s in tree.body:
+        if isinstance(s, ast.FunctionDef):
+            env[s.name] = Closure(s, env)
+        elif isinstance(s, ast.Assign) and len(s.targets) == 1 and isinstance(s.targets[0], ast.Name):
+            try:
+                env[s.targets[0].id] = ev(s.value, {})
+            except NFUnsupported:
+                pass
+    return env
